@@ -1924,8 +1924,8 @@ fn gen_c08_case(r: &mut Rng, max_n: usize, big: bool, stats: &mut HashMap<String
 }
 
 fn gen_c19_case(r: &mut Rng, stats: &mut HashMap<String, usize>) -> (String, Vec<String>) {
-    let mode = *r.pick(&["os", "rayon", "nested", "firstuse"][..]);
-    let tasks = r.range(2, 48);
+    let mode = *r.pick(&["os", "rayon", "nested", "firstuse", "churn"][..]);
+    let tasks = if mode == "churn" { r.range(3, 5) } else { r.range(2, 48) };
     *stats.entry(format!("mode.{mode}")).or_default() += 1;
     (format!("mode={mode} tasks={tasks}"), vec![format!("conc {mode} {tasks} {}", r.next() >> 1)])
 }
